@@ -211,7 +211,7 @@ def facts : Facts := {
   typedAllocSites := 6
   decoderSkeleton := "ccc4122215142eb0a0ebde38"
   encoderSkeleton := "5cbdaefa998ed87261c39697"
-  resolverSkeleton := "fc893de27c26c5f74381c563"
+  resolverSkeleton := "7421c925da242e28e65a020f"
   descTableSkeleton := "cbfebd4eaff63fd247cc0a76"
   topLevelUsesLimit := true
   createLocksRechecksBuildsPublishes := true
@@ -1009,7 +1009,8 @@ def facts : Facts := {
 --   return false, err
 --   call vt.Kind
 --   if tok == "" || tok == ":" || tok == ">" => return
---   return anon || tn == *tv, nil
+--   return anon && !isTypeKeyword(*tv) || tn == *tv, nil
+--   call isTypeKeyword
 --   if tok != "." => return
 --   return false, ESyntax(sp, def, "'.' or '>' expected")
 --   call ESyntax
@@ -1020,7 +1021,8 @@ def facts : Facts := {
 --   call isident0
 --   return false, ESyntax(sp, def, "struct name expected")
 --   call ESyntax
---   return anon || tn == *tv, nil
+--   return anon && !isTypeKeyword(*tv) || tn == *tv, nil
+--   call isTypeKeyword
 -- resolver / readToken
 --   call len
 --   for p < n && unicode.IsSpace(rune(src[p]))
